@@ -27,6 +27,7 @@ type histMode struct {
 	roracle   func(r *hist.Run) []hist.Problem // oracle that needs the recorded traffic
 	presence  bool                             // a third of the histories run on a presenceless document
 	serverDoc bool                             // compare server-side rebuilds with the change-by-change replica
+	cacheOnly bool                             // ... with the rebuild from the store alone instead (C20)
 	smallSnap bool                             // half of the histories run on projects with tiny snapshot interval/threshold
 	proto     bool                             // emit protocol-model cases
 	twin      string                           // "", "nogc"
@@ -57,6 +58,13 @@ func modeFor(prop string) (*histMode, error) {
 			oracle: func(h *hist.History, o *hist.Outcome) []hist.Problem {
 				return append(baseOracle(h, o), hist.CheckConvergence(o)...)
 			}}, nil
+	case "C20":
+		// the snapshot cache: what BuildInternalDocForServerSeq answers from whatever cache state the
+		// history has left must be what it answers from the store alone (cache purged); whether the
+		// store's snapshot + changes equal a replay of every change is C02's question, not this one
+		return &histMode{flavors: []string{"object", "array", "arraymove", "text", "counter", "mixed", "tree"}, smallSnap: true, serverDoc: true, cacheOnly: true,
+			gen:    hist.GenConfig{MinClients: 2, MaxClients: 4, MinSteps: 10, MaxSteps: 40, Late: true, Detach: true, Inflight: true},
+			oracle: baseOracle}, nil
 	case "C03":
 		return &histMode{flavors: []string{"array", "arraymove", "text", "object", "mixed", "tree"}, twin: "nogc",
 			gen: hist.GenConfig{MinClients: 2, MaxClients: 4, MinSteps: 8, MaxSteps: 40, PushOnly: true, Inflight: true},
@@ -65,7 +73,7 @@ func modeFor(prop string) (*histMode, error) {
 			}}, nil
 	case "C10":
 		return &histMode{flavors: []string{"object", "array", "arraymove", "text", "counter", "mixed"}, proto: true,
-			gen:       hist.GenConfig{MinClients: 2, MaxClients: 4, MinSteps: 8, MaxSteps: 35, Detach: true, Compact: true, PushOnly: true, Late: true},
+			gen:       hist.GenConfig{NoMovedSet: true, MinClients: 2, MaxClients: 4, MinSteps: 8, MaxSteps: 35, Detach: true, Compact: true, PushOnly: true, Late: true},
 			smallSnap: true, serverDoc: true,
 			oracle: func(h *hist.History, o *hist.Outcome) []hist.Problem {
 				return append(baseOracle(h, o), hist.CheckConvergence(o)...)
@@ -84,7 +92,7 @@ func modeFor(prop string) (*histMode, error) {
 			roracle: hist.CheckMinVVExact}, nil
 	case "C04":
 		return &histMode{flavors: []string{"counter", "object", "array", "mixed"}, proto: true,
-			gen: hist.GenConfig{MinClients: 2, MaxClients: 5, MinSteps: 6, MaxSteps: 40, Inflight: true, PushOnly: true, Retry: true, Racing: true, Detach: true, Presence: true},
+			gen: hist.GenConfig{NoMovedSet: true, MinClients: 2, MaxClients: 5, MinSteps: 6, MaxSteps: 40, Inflight: true, PushOnly: true, Retry: true, Racing: true, Detach: true, Presence: true},
 			oracle: func(h *hist.History, o *hist.Outcome) []hist.Problem {
 				var ps []hist.Problem
 				for _, p := range hist.CheckLog(o) {
@@ -99,7 +107,7 @@ func modeFor(prop string) (*histMode, error) {
 			}}, nil
 	case "C05":
 		return &histMode{flavors: []string{"counter", "array", "text", "mixed"}, proto: true,
-			gen: hist.GenConfig{MinClients: 2, MaxClients: 4, MinSteps: 6, MaxSteps: 30, Retry: true, Racing: true, Inflight: true, LostRetry: true},
+			gen: hist.GenConfig{NoMovedSet: true, MinClients: 2, MaxClients: 4, MinSteps: 6, MaxSteps: 30, Retry: true, Racing: true, Inflight: true, LostRetry: true},
 			oracle: func(h *hist.History, o *hist.Outcome) []hist.Problem {
 				ps := baseOracle(h, o)
 				seen := map[string]bool{}
@@ -117,7 +125,7 @@ func modeFor(prop string) (*histMode, error) {
 			}}, nil
 	case "C06":
 		return &histMode{flavors: append(append([]string{}, all...), "counter", "counter"),
-			gen: hist.GenConfig{MinClients: 2, MaxClients: 4, MinSteps: 6, MaxSteps: 30, Inflight: true, Detach: true, Late: true, OptOut: true},
+			gen: hist.GenConfig{NoMovedSet: true, MinClients: 2, MaxClients: 4, MinSteps: 6, MaxSteps: 30, Inflight: true, Detach: true, Late: true, OptOut: true},
 			oracle: func(h *hist.History, o *hist.Outcome) []hist.Problem {
 				var ps []hist.Problem
 				for _, p := range o.Problems {
@@ -130,7 +138,7 @@ func modeFor(prop string) (*histMode, error) {
 			roracle: func(r *hist.Run) []hist.Problem { return append(hist.CheckMinVV(r), hist.CheckLamportCausal(r)...) }, proto: true, smallSnap: true}, nil
 	case "C15":
 		return &histMode{flavors: []string{"object", "array", "arraymove", "text", "counter", "tree", "mixed"}, smallSnap: true, serverDoc: true,
-			gen: hist.GenConfig{MinClients: 2, MaxClients: 3, MinSteps: 8, MaxSteps: 30, Undo: true, Late: true, Inflight: true},
+			gen: hist.GenConfig{NoMovedSet: true, MinClients: 2, MaxClients: 3, MinSteps: 8, MaxSteps: 30, Undo: true, Late: true, Inflight: true},
 			oracle: func(h *hist.History, o *hist.Outcome) []hist.Problem {
 				return append(append(baseOracle(h, o), hist.CheckConvergence(o)...), hist.CheckCloneRoot(o)...)
 			}}, nil
@@ -181,7 +189,7 @@ func runHist(cfg *config) error {
 		return err
 	}
 	defer srvNoGC.Stop()
-	rn := &hist.Runner{S: srv, ServerDoc: mode.twin == "nosnap" || mode.serverDoc, ServerDocSparse: mode.serverDoc}
+	rn := &hist.Runner{S: srv, ServerDoc: mode.twin == "nosnap" || mode.serverDoc, ServerDocSparse: mode.serverDoc, CacheOnly: mode.cacheOnly}
 	rnNoGC := &hist.Runner{S: srvNoGC}
 	res := newResult("hist", cfg.seed)
 	r := rng.New(cfg.seed)
@@ -336,7 +344,7 @@ func runHist(cfg *config) error {
 	for i := 0; i < cfg.n; i++ {
 		g := mode.gen
 		g.Flavor = mode.flavors[i%len(mode.flavors)]
-		if mode.twin == "nosnap" || (mode.smallSnap && (i/len(mode.flavors))%2 == 1) {
+		if mode.twin == "nosnap" || mode.cacheOnly || (mode.smallSnap && (i/len(mode.flavors))%2 == 1) {
 			iv := []int64{1, 2, 3, 5, 10}
 			g.Interval, g.Threshold = iv[r.Intn(len(iv))], iv[r.Intn(len(iv))]
 		}
